@@ -41,7 +41,7 @@ Chain(op, n, L) == IF n = 1 THEN <<"cmp", RandomElement(CmpOps), RE(0, L), RE(0,
                    ELSE <<op, <<"cmp", RandomElement(CmpOps), RE(0, L), RE(0, L)>>, Chain(op, n - 1, L)>>
 RC(d, L) ==
     LET c == RandomElement(1..10) IN
-    IF d = 0 \/ c <= 4 THEN <<"cmp", RandomElement(CmpOps), RE(d, L), RE(0, L)>>
+    IF d = 0 \/ c <= 4 THEN <<"cmp", RandomElement(CmpOps), RE(d, L), RE(IF RandomElement(1..3) = 1 THEN 1 ELSE 0, L)>>
     \* a chain  x op y op z ...  of 3 to 6 operands with one operator (rendered without parentheses)
     ELSE IF c = 5 THEN Chain(RandomElement({"and", "or"}), RandomElement(3..6), L)
     ELSE IF c <= 7 THEN <<"and", RC(d - 1, L), RC(d - 1, L)>>
@@ -77,6 +77,10 @@ Nest == {<<"bin", o1, <<"a">>, <<"bin", o2, <<"b">>, <<"c", 2>>>>>> : o1 \in Bin
         \cup {<<"bin", o2, <<"bin", o1, <<"a">>, <<"b">>>>, <<"c", 2>>>> : o1 \in BinOps, o2 \in BinOps}
         \cup {<<"bin", o1, <<"un", u, <<"a">>>>, <<"b">>>> : o1 \in BinOps, u \in UnOps}
         \cup {<<"un", u, <<"bin", o1, <<"a">>, <<"b">>>>>> : o1 \in BinOps, u \in UnOps}
+        \* a comparison whose right (left) operand is itself an operation: Python's bitwise operators bind tighter than its
+        \* comparisons, Verilog's == binds tighter than & | ^
+        \cup {<<"val", <<"cmp", c, <<"a">>, <<"bin", o, <<"b">>, <<"c", 1>>>>>>>> : c \in CmpOps, o \in BinOps}
+        \cup {<<"val", <<"cmp", c, <<"bin", o, <<"a">>, <<"c", 2>>>>, <<"b">>>>>> : c \in CmpOps, o \in BinOps}
 
 \* chains of one logical operator over the bits of a:  (a & 1) != 0 op (a & 2) != 0 op ...  (n operands): with a swept over
 \* 0 .. 2^n - 1 every operand is decisive for some input
